@@ -193,12 +193,18 @@ def build_sinks(sinks, arrs, ctx: SinkCtx, spec, vals=None, compute=False, execu
                     region = [[0, n] for n in shape]
                 else:
                     cls = "existing-larger-unaligned"
+            if cls.startswith("region-malformed"):
+                # a region tuple with fewer slices than the source has dimensions (never drawn by the strategy: corpus probe of a
+                # recorded known finding): the target is twice as long along axis 0, the region names its second half along axis 0 only
+                tshape = (shape[0] * 2,) + tuple(shape[1:])
+                region = [[shape[0], 2 * shape[0]]] + [[0, n] for n in shape[1:]]
+                cls = "region-malformed:short-tuple"
             if cls == "sharded":
                 shards = tuple(max(1, c * m) for c, m in zip(cs, s["mult"]))
                 inner = tuple(max(1, sh // 2) if (s.get("inner_div") and sh % 2 == 0) else sh for sh in shards)
                 kw["shards"] = shards
                 tchunks = inner
-            if cls.startswith("region"):
+            if cls.startswith("region") and not cls.startswith("region-malformed"):
                 starts, stops, tsh, tch = [], [], [], []
                 tmul = s.get("tmul") or [1] * len(shape)
                 for ax, (n, c) in enumerate(zip(shape, cs)):
@@ -269,13 +275,15 @@ def build_sinks(sinks, arrs, ctx: SinkCtx, spec, vals=None, compute=False, execu
                         expected = None
                 else:
                     expected = ref.astype(tdtype) if ref.shape == tshape else None
-            if cls in ("region-misaligned", "existing-smaller", "existing-larger-unaligned"):
+            if cls in ("region-misaligned", "existing-smaller", "existing-larger-unaligned", "region-malformed:short-tuple"):
                 expected = None  # must be rejected
         tgt = Target(sink=dict(s, cls=cls), store=ts, path=path, expected=expected, before=before, region=region, zarr_array=tgt_obj if not hasattr(tgt_obj, "state") else None)
         ctx.targets.append(tgt)
         reg = None
         if region is not None and not cls.startswith("existing-larger"):
-            if s.get("full_slices"):
+            if cls == "region-malformed:short-tuple":
+                reg = (slice(region[0][0], region[0][1]),)
+            elif s.get("full_slices"):
                 reg = tuple(slice(None) for _ in shape)
             else:
                 if s.get("open_ends"):
